@@ -149,9 +149,13 @@ func (e *Eng) funcEnv(fr *Frame) *Env {
 				if _, defined := fr.vals[c]; !defined {
 					continue
 				}
-				d := domDepth(db)*2 + 0
-				if _, isPhi := c.(*ssa.Phi); isPhi && db == fr.curBlock {
-					d++
+				// deeper dominator first; within one block the latest definition already executed
+				d := domDepth(db) * 100000
+				for i, bi := range db.Instrs {
+					if bi == ins {
+						d += i + 1
+						break
+					}
 				}
 				if d > bestDepth {
 					best, bestDepth = c, d
@@ -707,8 +711,35 @@ func (e *Eng) evalCall(n *ECall, env *Env, cur, old *State) *Val {
 	case "upd":
 		as := args()
 		return &Val{T: sto(as[0].T, as[1].T, as[2].T), Sort: "(Array Int Int)", KnownLen: -1}
+	case "entry":
+		// entry(p): the value parameter p had when the function was entered (the name may since have been reassigned)
+		id, ok := n.Args[0].(*EIdent)
+		if !ok {
+			panic("entry() needs a parameter name")
+		}
+		if env.fr != nil {
+			for _, pr := range env.fr.fn.Params {
+				if pr.Name() == id.Name {
+					if v := env.fr.vals[pr]; v != nil {
+						return v
+					}
+				}
+			}
+		}
+		// at a call site the contract's parameter names are bound to the actual arguments
+		if v, ok := env.vars[id.Name]; ok {
+			return v
+		}
+		panic("entry(): no parameter " + id.Name)
+	case "sep":
+		// sep(a, b): two slices with different backing arrays
+		as := args()
+		return bval(sx("not", sx("=", sx("s_arr", as[0].T), sx("s_arr", as[1].T))))
 	case "allocated":
 		a := e.eval(n.Args[0], env, cur, old)
+		if a.sortName(e) == "Slice" {
+			return bval(and(sx("<=", "0", sx("s_arr", a.T)), sx("<", sx("s_arr", a.T), e.get(cur, frRegion, "Int"))))
+		}
 		return bval(and(sx("<", "0", a.T), sx("<", a.T, e.get(cur, frRegion, "Int"))))
 	case "toReal":
 		a := e.eval(n.Args[0], env, cur, old)
@@ -787,6 +818,15 @@ func (e *Eng) evalCall(n *ECall, env *Env, cur, old *State) *Val {
 		}
 		as := args()
 		return &Val{T: sx("snoc", as[0].T, as[1].T), Sort: "Trace", KnownLen: -1}
+	case "sumlens":
+		// sumlens(s, k): sum of len(s[j]) for j < k  (s is a [][]byte)
+		as := args()
+		sl, _ := types.Unalias(as[0].Typ).Underlying().(*types.Slice)
+		if sl == nil {
+			panic("sumlens of non-slice")
+		}
+		r, rs := e.elemRegion(sl.Elem())
+		return ival(sx("sumlens", sel(e.get(cur, r, rs), sx("s_arr", as[0].T)), sx("s_off", as[0].T), as[1].T))
 	case "buflen":
 		a := e.eval(n.Args[0], env, cur, old)
 		return ival(sel(e.get(cur, "BL", "(Array Int Int)"), a.T))
